@@ -50,6 +50,7 @@ static const scpi_command_t cmds[] = {
 static scpi_interface_t itf = {on_error, on_write, on_control, on_flush, NULL};
 
 void __asan_on_error(void) { fputs("\nDRV_HEAP_CONTEXT ", stderr); fputs(curdesc, stderr); fputs("\n", stderr); }
+void __ubsan_on_report(void) { __asan_on_error(); }
 
 static void fresh(void) {
     memset(eq, 0, sizeof eq);
